@@ -35,6 +35,15 @@ func goValue(v tval) (any, error) {
 		}
 		return nil, fmt.Errorf("bad anchor %q", v.B)
 	case "float":
+		if v.E == -1 { // IEEE-754 special values of the model: n = 0 NaN, 1 +Inf, -1 -Inf
+			switch {
+			case v.N == 0:
+				return math.NaN(), nil
+			case v.N > 0:
+				return math.Inf(1), nil
+			}
+			return math.Inf(-1), nil
+		}
 		return float64(v.N) / float64(int64(1)<<uint(v.E)), nil
 	case "str":
 		var s string
